@@ -65,3 +65,35 @@ package rm
 //@   ensures ghost.rmcalls == old(ghost.rmcalls) + 1 && ghost.rm_self == self && ghost.rm_kind == 2
 //@   ensures ghost.rm_type == resource.BranchType && ghost.rm_xid == resource.Xid && ghost.rm_branch == resource.BranchId && ghost.rm_resource == resource.ResourceId && ghost.rm_data == resource.ApplicationData
 //@   ensures ghost.rm_status == result0 && ghost.rm_err_nil == (result1 == nil)
+
+// ---------------------------------------------------------------------------------------------
+// C05 / C02: the branch requests of a resource manager to the coordinator, and the user's two-phase
+// methods. TwoPhaseAction.Prepare/Commit/Rollback dispatch by reflect.Value.Call: trusted here (the
+// user method is called once with the given arguments; any result; calls counted).
+//@ ghost var user_prepares int
+//@ ghost var user_commits int
+//@ ghost var user_rollbacks int
+//@ func (*TwoPhaseAction).Prepare
+//@   trusted
+//@   modifies ghost.user_prepares
+//@   ensures ghost.user_prepares == old(ghost.user_prepares) + 1
+//@ func (*TwoPhaseAction).Commit
+//@   trusted
+//@   modifies ghost.user_commits
+//@   ensures ghost.user_commits == old(ghost.user_commits) + 1
+//@ func (*TwoPhaseAction).Rollback
+//@   trusted
+//@   modifies ghost.user_rollbacks
+//@   ensures ghost.user_rollbacks == old(ghost.user_rollbacks) + 1
+//@ func GetRMRemotingInstance
+//@   trusted
+//@   ensures result != nil
+
+//@ func (*RMRemoting).BranchRegister
+//@   prop C05
+//@   modifies ghost.begin_sends, ghost.commit_sends, ghost.rollback_sends, ghost.other_sends, ghost.commit_acked, ghost.rollback_acked, ghost.last_send_failed, ghost.commit_xid, ghost.rollback_xid, ghost.begin_xid
+//@   ensures one-request: ghost.other_sends == old(ghost.other_sends) + 1 && ghost.begin_sends == old(ghost.begin_sends) && ghost.commit_sends == old(ghost.commit_sends) && ghost.rollback_sends == old(ghost.rollback_sends)
+//@   ensures transport-failure-surfaces: ghost.last_send_failed ==> result1 != nil
+//@   ensures refusal-surfaces: called("SendSyncRequest#1") && callres("SendSyncRequest#1", 1) == nil && callres("SendSyncRequest#1", 0).(message.BranchRegisterResponse).ResultCode == message.ResultCodeFailed ==> result1 != nil
+//@   ensures branch-id-from-the-response: result1 == nil ==> called("SendSyncRequest#1") && result0 == callres("SendSyncRequest#1", 0).(message.BranchRegisterResponse).BranchId
+//@   at call SendSyncRequest#1: assert request-describes-the-branch: isT(arg_msg, message.BranchRegisterRequest) && arg_msg.(message.BranchRegisterRequest).Xid == param.Xid && arg_msg.(message.BranchRegisterRequest).ResourceId == param.ResourceId && arg_msg.(message.BranchRegisterRequest).BranchType == param.BranchType && arg_msg.(message.BranchRegisterRequest).LockKey == param.LockKeys && string(arg_msg.(message.BranchRegisterRequest).ApplicationData) == param.ApplicationData
